@@ -204,10 +204,14 @@ fn classify<T>(r: Result<std::io::Result<T>, (String, String)>) -> Result<T, Fai
             symptom: format!("err:{:?}:{}", e.kind(), vmc::normalise_msg(&e.to_string())),
             detail: format!("Err({:?}, {e})", e.kind()),
         }),
-        Err((msg, file)) => Err(Fail {
+        Err((msg, file)) => {
+            // path inside the repository, wherever the tree is checked out
+            let file = file.find("noodles-").map(|i| file[i..].to_string()).unwrap_or(file);
+            Err(Fail {
             symptom: format!("panic:{}@{}", vmc::normalise_msg(&msg), file),
             detail: format!("panic: {msg} in {file}"),
-        }),
+        })
+        }
     }
 }
 
